@@ -19,7 +19,7 @@ Import ListNotations. Local Open Scope Z_scope.
 Theorem C10_alloc_fresh_noext : forall s len addr opts ovr, Inv s -> WF s -> len < 2 ^ 62 ->
   has opts IWFSM_ALLOC_NO_EXTEND = true ->
   let '(rc, s', a, l) := allocate s len addr opts ovr in
-  (rc <> 0 /\ (s' = s \/ exists off olen, allocated_from s s' off olen)) \/
+  (rc <> 0 /\ (s' = s \/ (exists off olen, allocated_from s s' off olen) \/ (exists off olen, given_back s s' off olen))) \/
   (rc = 0 /\ exists off olen, allocated_from s s' off olen /\ a = off * 2 ^ bpow s /\ l = olen * 2 ^ bpow s /\
      len <= l /\ (has opts IWFSM_ALLOC_NO_OVERALLOCATE = true -> l = IW_ROUNDUP len (pow2 (bpow s))) /\
      (has opts IWFSM_ALLOC_PAGE_ALIGNED = true -> a mod aunit s = 0)).
@@ -244,7 +244,7 @@ Theorem C10_alloc_hint_harmless : forall s length_blk hint opts ovr, Inv s -> 0 
   has opts IWFSM_ALLOC_PAGE_ALIGNED = false ->
   (exists o n, is_run (bm s) o n /\ length_blk <= n) ->
   let '(rc, s', off, olen) := blk_allocate s length_blk hint opts ovr in
-  (rc = 0 \/ rc = IWFS_ERROR_NOT_MMAPED \/ rc = FSM_E_MAXOFF) /\ allocated_from s s' off olen /\ length_blk <= olen.
+  na_outcome s rc s' off olen /\ length_blk <= olen.
 Proof. exact alloc_hint_harmless. Qed.
 Print Assumptions C10_alloc_hint_harmless.
 (* the code as it is, new file, hint address 2^40: NO_FREE_SPACE under NO_EXTEND although 32640 blocks in a row are free ... *)
